@@ -6,5 +6,7 @@ def run(tier, seed):
     # arenas of more than one bitmap field: multi-block objects claimed next to / across the field boundary must not overlap
     extra = [{"MIMALLOC_ARENA_RESERVE": "4GiB", "_args": ["--workload", "fieldfill", "--rounds", "2"], "_tag": "fieldfill", "_builds": ["rel", "dbg"] if tier == "quick" else None},
              {"MIMALLOC_ARENA_RESERVE": "2GiB", "MIMALLOC_PURGE_DELAY": "0", "_args": ["--workload", "fieldfill", "--rounds", "2"], "_tag": "fieldfill.2g", "_builds": ["rel"] if tier == "quick" else None}]
+    extra.append({"_args": ["--scenario", "span16"], "_tag": "span16", "_builds": ["rel", "dbg"] if tier == "quick" else None})      # largest pages on spans with pending purges
+    extra.append({"MIMALLOC_PURGE_DELAY": "1", "MIMALLOC_PURGE_DECOMMITS": "0", "_args": ["--scenario", "span16"], "_tag": "span16.reset", "_builds": ["rel"] if tier == "quick" else None})
     return apifam.run_api("C01", tier, seed, profiles=["c01", "bulk", "c05", "c10", "bulk", "c01"], builds=["rel", "dbg", "sec"], own_guards=GUARDS,
                           crash_decisive=True, extra_runs=extra)
